@@ -147,6 +147,59 @@ fn create(src: Src, n: usize, when: DropWhen) -> Live {
 }
 
 
+
+/// `enhance_hot_reloading` mode: after a change was applied (also one that concerns an asset
+/// obtained with `load_owned`, or one whose new content does not load) the reloader goes
+/// back to sleep.
+fn static_idle(rep: &mut Report, window: Duration, spin_ticks: u64) {
+    for variant in 0..3 {
+        rep.eval();
+        let before = reloader_tids();
+        let mem = Mem::new("c15st", Hot::Yes);
+        mem.write("x", "a", b"x0");
+        mem.write("n", "n0", if variant == 0 { &b"owned L10t x"[..] } else { &b"load L10t x"[..] });
+        let cache: &'static AssetCache<Mem> = Box::leak(Box::new(AssetCache::with_source(mem.clone())));
+        cache.enhance_hot_reloading();
+        let _ = cache.load::<Node<0>>("n");
+        std::thread::sleep(Duration::from_millis(20));
+        let mine: BTreeSet<i32> = reloader_tids().difference(&before).cloned().collect();
+        match variant {
+            // a file read through load_owned
+            0 => mem.write("x", "a", b"x1"),
+            // content that does not load any more
+            1 => mem.write("x", "a", b"!bad"),
+            // the file goes away
+            _ => mem.remove_file("x", "a"),
+        };
+        mem.notify_file("x", "a");
+        let sent = mem.sent();
+        if !crate::util::wait_until(60_000, || cache.verif_events_handled().is_some_and(|h| h >= sent)) {
+            rep.inconclusive("static_idle: barrier watchdog");
+            return;
+        }
+        std::thread::sleep(Duration::from_millis(100));
+        mem.set_logging(true);
+        let _ = mem.take_log();
+        let t0 = ticks_of(&mine);
+        std::thread::sleep(window);
+        let used = ticks_of(&mine).saturating_sub(t0);
+        let reads = mem.take_log().len();
+        mem.set_logging(false);
+        let change = ["edit of a file read through load_owned", "edit to content that does not load", "deletion of the file"][variant];
+        let scen = json!({"kind": "enhance_hot_reloading, one notified change, then idle", "change": change});
+        if used >= spin_ticks.max(5) || reads > 50 {
+            rep.violation(
+                "busy-while-idle",
+                "C15/reloader-busy-while-idle",
+                json!({"ticks_in_window": used, "window_ms": window.as_millis() as u64, "source_reads_in_window": reads, "threads": mine.len()}),
+                scen,
+            );
+        }
+        rep.count("idle_windows_observed", 1);
+        rep.nontrivial(mix(0x57a7, variant as u64));
+    }
+}
+
 /// A custom source with a watcher thread of its own: it publishes a change every
 /// 2 ms, stops when the reloader no longer listens (`send` fails), and is joined
 /// when the source held by the cache is dropped.
@@ -271,57 +324,76 @@ fn live_source_drop(rep: &mut Report, rounds: usize) {
     }
 }
 
-/// No native watcher available (no file descriptor left for inotify): hot-reloading is
-/// simply off. Nothing may start running in the background instead.
-fn without_native_watcher(rep: &mut Report) {
+/// No native watcher available: hot-reloading is simply off, nothing may start running in the
+/// background instead. The condition is produced without touching anything shared: the scenario
+/// runs in a child process that first moves into a user namespace of its own and sets that
+/// namespace's `max_inotify_instances` to 0, so that `inotify_init` fails there and only there.
+fn without_native_watcher(rep: &mut Report, args: &Args) {
+    use std::process::{Command, Stdio};
     rep.eval();
+    let exe = std::env::current_exe().expect("current_exe");
+    let out = crate::util::scratch_dir("c15child").join("child.json");
+    let st = Command::new(exe)
+        .args(["C15", "--tier", &args.tier, "--seed", &args.seed.to_string(), "--build", &args.build, "--mode", "child:nowatcher", "--out"])
+        .arg(&out)
+        .stdout(Stdio::null())
+        .stderr(Stdio::null())
+        .status();
+    match st {
+        Err(e) => rep.inconclusive(&format!("could not spawn the child process: {e}")),
+        Ok(_) => match std::fs::read_to_string(&out).ok().and_then(|t| serde_json::from_str::<serde_json::Value>(&t).ok()) {
+            None => rep.inconclusive("no-native-watcher child left no result"),
+            Some(v) => {
+                for n in v["notes"].as_array().into_iter().flatten() {
+                    if let Some(n) = n.as_str() {
+                        rep.note(n);
+                    }
+                }
+                for viol in v["violations"].as_array().into_iter().flatten() {
+                    rep.violation(
+                        viol["clause"].as_str().unwrap_or("child"),
+                        viol["signature"].as_str().unwrap_or("C15/child"),
+                        viol["detail"].clone(),
+                        viol["scenario"].clone(),
+                    );
+                }
+                let n = v["counters"]["without_native_watcher_observed"].as_u64().unwrap_or(0);
+                rep.count("without_native_watcher_observed", n);
+                if n > 0 {
+                    rep.nontrivial(mix(0x0fd, n));
+                }
+            }
+        },
+    }
+    let _ = std::fs::remove_dir_all(out.parent().unwrap());
+}
+
+/// Runs in the child process (single-threaded when called).
+fn child_without_native_watcher(mut rep: Report) -> Report {
+    let (uid, gid) = unsafe { (libc::getuid(), libc::getgid()) };
+    if unsafe { libc::unshare(libc::CLONE_NEWUSER) } != 0 {
+        rep.note("without-native-watcher: user namespaces are not available here; scenario skipped");
+        return rep;
+    }
+    let _ = std::fs::write("/proc/self/setgroups", "deny");
+    let _ = std::fs::write("/proc/self/uid_map", format!("0 {uid} 1"));
+    let _ = std::fs::write("/proc/self/gid_map", format!("0 {gid} 1"));
+    let _ = std::fs::write("/proc/sys/user/max_inotify_instances", "0");
+    let probe = unsafe { libc::inotify_init1(libc::IN_CLOEXEC) };
+    if probe >= 0 {
+        unsafe { libc::close(probe) };
+        rep.note("without-native-watcher: could not make inotify_init fail; scenario skipped");
+        return rep;
+    }
     let interesting = |t: &procfs::Task| t.comm.starts_with("notify-rs") || t.comm.starts_with("assets_hot_relo");
     let before: BTreeSet<i32> = procfs::tasks().iter().filter(|t| interesting(t)).map(|t| t.tid).collect();
-    let dir = crate::util::scratch_dir("c15nofd");
+    let dir = crate::util::scratch_dir("c15nowatch");
     std::fs::write(dir.join("x.a"), b"v0").unwrap();
-    // use up the descriptor table: soft limit = what is open now
-    let mut lim = libc::rlimit { rlim_cur: 0, rlim_max: 0 };
-    if unsafe { libc::getrlimit(libc::RLIMIT_NOFILE, &mut lim) } != 0 {
-        rep.inconclusive("getrlimit failed");
-        return;
-    }
-    let highest = std::fs::read_dir("/proc/self/fd").map(|d| d.flatten().filter_map(|e| e.file_name().to_str().and_then(|s| s.parse::<u64>().ok())).max().unwrap_or(2)).unwrap_or(2);
-    // keep every slot below the highest one occupied, then forbid anything above
-    let mut fillers = vec![];
-    while let Ok(f) = std::fs::File::open("/dev/null") {
-        use std::os::fd::AsRawFd;
-        let fd = f.as_raw_fd() as u64;
-        fillers.push(f);
-        if fd > highest || fillers.len() > 4096 {
-            break;
-        }
-    }
-    let low = libc::rlimit { rlim_cur: highest + 1, rlim_max: lim.rlim_max };
-    let inotify_refused;
     let mut caches = vec![];
-    unsafe {
-        libc::setrlimit(libc::RLIMIT_NOFILE, &low);
-        let probe = libc::inotify_init1(libc::IN_CLOEXEC);
-        inotify_refused = probe < 0;
-        if probe >= 0 {
-            libc::close(probe);
+    for _ in 0..3 {
+        if let Ok(c) = AssetCache::new(&dir) {
+            caches.push(c);
         }
-    }
-    if inotify_refused {
-        for _ in 0..3 {
-            if let Ok(c) = AssetCache::new(&dir) {
-                caches.push(c);
-            }
-        }
-    }
-    unsafe {
-        libc::setrlimit(libc::RLIMIT_NOFILE, &lim);
-    }
-    drop(fillers);
-    if !inotify_refused {
-        rep.note("without-native-watcher: could not make inotify_init fail; scenario skipped");
-        let _ = std::fs::remove_dir_all(dir);
-        return;
     }
     let mut loaded = 0;
     for c in &caches {
@@ -329,7 +401,8 @@ fn without_native_watcher(rep: &mut Report) {
             loaded += 1;
         }
     }
-    let scen = json!({"kind": "filesystem caches created while no file descriptor is left for a native watcher", "caches": caches.len(), "loads_ok": loaded});
+    let scen = json!({"kind": "filesystem caches created while inotify_init fails (private user namespace with max_inotify_instances = 0)",
+        "caches": caches.len(), "loads_ok": loaded});
     std::thread::sleep(Duration::from_millis(100));
     let alive = |before: &BTreeSet<i32>| -> Vec<procfs::Task> { procfs::tasks().into_iter().filter(|t| interesting(t) && !before.contains(&t.tid)).collect() };
     let while_idle = alive(&before);
@@ -362,8 +435,8 @@ fn without_native_watcher(rep: &mut Report) {
         }
     }
     rep.count("without_native_watcher_observed", 1);
-    rep.nontrivial(mix(0x0fd, loaded as u64));
     let _ = std::fs::remove_dir_all(dir);
+    rep
 }
 
 pub fn run(args: &Args) -> Report {
@@ -378,6 +451,9 @@ pub fn run(args: &Args) -> Report {
     let mut rng = Rng::new(args.seed).sub(15 + args.shard as u64 * 1000);
     if cfg!(miri) {
         return run_miri(rep);
+    }
+    if args.mode.as_deref() == Some("child:nowatcher") {
+        return child_without_native_watcher(rep);
     }
     let window = Duration::from_millis(if args.thorough() { 1000 } else { 400 });
     let hz = procfs::ticks_per_second();
@@ -411,8 +487,12 @@ pub fn run(args: &Args) -> Report {
         }
         rep.seen("sources", &format!("{src:?}"));
         rep.seen("drop_moments", &format!("{when:?}"));
-        // ---- idle: no CPU while nothing changes (not meaningful with events just queued)
-        if *when != DropWhen::EventsQueued {
+        // ---- idle: no CPU while nothing changes (with events queued: once they have been taken in;
+        // nobody calls hot_reload, the changes just stay recorded)
+        if *when == DropWhen::EventsQueued {
+            std::thread::sleep(Duration::from_millis(150));
+        }
+        {
             std::thread::sleep(Duration::from_millis(50));
             let t0 = ticks_of(&live.tids);
             std::thread::sleep(window);
@@ -512,7 +592,8 @@ pub fn run(args: &Args) -> Report {
     // ---- a source that joins its own watcher when dropped; no native watcher available
     if args.shard == args.nshards - 1 {
         live_source_drop(&mut rep, if args.thorough() { 12 } else { 4 });
-        without_native_watcher(&mut rep);
+        static_idle(&mut rep, window, spin_ticks);
+        without_native_watcher(&mut rep, args);
     }
     // ---- repeated create/drop does not accumulate threads or load
     let reps = if args.thorough() { 50 } else { 15 };
